@@ -294,8 +294,12 @@ def long_scene_cases(ctx):
     plan = [(GACPODReader, 5, (0, 1, 3, 4), 4100), (GACKLMReader, 6, (0, 1, 4, 5), 8200), (GACPODReader, 5, (0, 1, 3, 4), rng.randint(2000, 14000))]
     if ctx.thorough:
         plan += [(GACKLMReader, 6, (0, 1, 4, 5), n) for n in (1025, 2049, 4097, 13000)] + [(GACPODReader, 5, (0, 1, 3, 4), 16385)]
-    for cls, nch, sel, n in plan:
-        m = 7
+    plan = [(a, b, c, d, 7) for a, b, c, d in plan]
+    if ctx.thorough or getattr(ctx, "escalated", False):
+        # one scene at the FULL-RESOLUTION width (2048 columns, LAC / HRPT / FRAC) just beyond 4096 lines: 8.4 million pixels
+        from pygac.lac_pod import LACPODReader
+        plan.append((LACPODReader, 5, (0, 1, 3, 4), 4100, 2048))
+    for cls, nch, sel, n, m in plan:
         arr = np.empty((n, m, nch))
         base = nprng.integers(10, 60, size=(n, m)).astype(float)
         arr[:, :, sel[0]] = base
@@ -320,7 +324,7 @@ def long_scene_cases(ctx):
         before = arr.copy()
         ds = xr.Dataset({"channels": (("scan_line_index", "columns", "channel_name"), arr)})
         r = cls(tle_dir="/nonexistent", tle_name="x")
-        payload = {"stream": "long-scene", "reader": cls.__name__, "lines": n}
+        payload = {"stream": "long-scene", "reader": cls.__name__, "lines": n, "columns": m}
         try:
             r.mask_tsm_pixels(ds)
         except Exception as e:
@@ -342,7 +346,8 @@ def long_scene_cases(ctx):
         keep = ~blank
         if not np.array_equal(after[keep], before[keep]):
             ctx.violation("%s, scene of %d lines: a pixel outside the criterion was altered" % (cls.__name__, n), payload, cls="long-altered")
-        ctx.case(("long", cls.__name__, n), nontrivial=True, branch="long-scene/%s" % ("pod" if nch == 5 else "klm"))
+        ctx.case(("long", cls.__name__, n, m), nontrivial=True, branch="long-scene/%s%s" % ("pod" if nch == 5 else "klm", "" if m == 7 else "/full-width"))
+        del arr, before, after, ds
 
 
 def run(ctx):
